@@ -115,6 +115,8 @@ fn world(acting: usize, k: usize) -> (crate::rt::Execution, Channel, [u8; 3], [R
     let mut e = ev::mk_exec(3, 1, None);
     tv::activate(&mut e.threads, acting);
     let mut st = blank_state();
+    // room for the queued messages plus the one a send adds: no reallocation inside the operation
+    st.receiver_synchronize = VecDeque::with_capacity(k + 1);
     st.msg_cnt = k;
     let ss: Raw = kani::any();
     st.sender_synchronize = sv::mk(ss);
@@ -198,7 +200,7 @@ fn send_case(acting: usize, k: usize) {
 }
 
 vharness! {
-    /// @prop C09,C05,C10 @tier quick @mode fast @cost 2 @funcs Channel::send,Ref::branch_action,rt::branch,Execution::schedule,Synchronize::sync_store @bounds 3 threads, 1 empty channel, the other two threads symbolic (unrelated / blocked elsewhere / pending send / pending recv), all clock values, sender = thread 1
+    /// @prop C09,C05,C10 @tier thorough @mode fast @cost 4 @funcs Channel::send,Ref::branch_action,rt::branch,Execution::schedule,Synchronize::sync_store @bounds 3 threads, 1 empty channel, the other two threads symbolic (unrelated / blocked elsewhere / pending send / pending recv), all clock values, sender = thread 1
     /// send on an empty channel: count becomes 1, the message is stamped with the sender's view, every receiver blocked on the channel becomes runnable (whatever other threads are pending on it), nobody else changes.
     #[cfg_attr(kani, kani::unwind(8))]
     fn channel_send_empty_t1() { send_case(1, 0) }
